@@ -43,6 +43,18 @@ def add_builds(rng, scn):
                     r['ebuild'] = x
             if rng.random() < 0.4:
                 fail['e%d' % x] = 1
+    # differently named executors in the same directory with the same build command: ONE build (command, location)
+    if len(exes) >= 2 and rng.random() < 0.5:
+        grp = rng.sample(exes, rng.randint(2, min(3, len(exes))))
+        bid = min(grp)
+        for r in runs:
+            if r['exe'] in grp:
+                r['ebuild'] = bid
+        for x in grp:
+            fail.pop('e%d' % x, None)
+        if rng.random() < 0.3:
+            fail['e%d' % bid] = 1
+        scn['shared_build_other_names'] = True
     for i, r in enumerate(runs):
         if rng.random() < 0.3:
             r['sbuild'] = i
@@ -57,7 +69,7 @@ def add_builds(rng, scn):
             runs[i]['sbuild'] = i
             fail['s%d' % i] = 1
     # executors in different directories with textually identical build commands (a build = script + location)
-    if rng.random() < 0.35:
+    if rng.random() < 0.35 and not scn.get('shared_build_other_names'):
         for r in runs:
             r['file'] = r['exe'] % 2
             if r.get('ebuild') is not None:
@@ -102,6 +114,81 @@ def gen_scenario(rng, n_min, n_max, parallel, with_127):
         runs.append(r)
         scripts.append(s)
     return {'runs': runs}, scripts
+
+
+def adapter_scenario(rng, n_min, n_max, parallel):
+    """custom gauge adapters loaded from different files, some with the same class name, one named like the
+    built-in RebenchLog adapter, next to runs using the built-in one: every run is parsed by its own adapter"""
+    n = rng.randint(n_min, n_max)
+    runs, scripts = [], []
+    variants = rng.sample([1, 2, 3], 3)
+    for i in range(n):
+        r = {'N': rng.randint(1, 2), 'retries': rng.choice([0, 1]), 'exe': i, 'excl': not parallel}
+        if i < 3 and rng.random() < 0.8:
+            r['custom'] = {'variant': variants[i], 'cls': rng.choice(['MyAdapter', 'MyAdapter', 'RebenchLog', 'Other'])}
+        sc = [{'rc': 0, 'dps': rng.choice([1, 2])} if rng.random() < 0.8 else {'rc': 1, 'dps': 0} for _ in range(r['N'] + 4)]
+        runs.append(r)
+        scripts.append(sc)
+    return {'runs': runs}, scripts
+
+
+def check_own_adapter(ck, inp, scn, obs, what):
+    """the value recorded for a run is the one its own adapter yields (custom variant v adds 0.25 * v)"""
+    for row in obs['file']['rows']:
+        if row[0] < 0 or row[3] != 'total':
+            continue
+        c = scn['runs'][row[0]].get('custom')
+        want = 0.25 * (c.get('variant', 0) if c else 0)
+        if abs((row[4] % 1.0) - want) > 1e-6:
+            ck.oracle_fail('parsed_by_own_adapter', inp, {'scheduler': what, 'row': row, 'expected_fraction': want,
+                                                          'adapter': c or 'RebenchLog'},
+                           signature={'adapter_names_collide': True})
+            return False
+    return True
+
+
+def exception_scenario(rng):
+    """non-exclusive runs some of whose command lines cannot be built (unknown format key): the worker thread that
+    gets one ends with an exception. Few enough runs that every share of work is a single run."""
+    cpu = rng.choice([8, 16])
+    t = int(cpu / 2.5)
+    n = rng.randint(3, 2 * t - 1)
+    # at most threads - 1 failing runs: a worker that ends with an exception does not come back, and at least one
+    # has to survive to take the rest of the work
+    bad = set(rng.sample(range(n), rng.randint(1, min(t - 1, n - 1))))
+    runs = [{'N': rng.randint(1, 3), 'retries': 0, 'exe': i, 'excl': False, 'badcmd': i in bad} for i in range(n)]
+    scripts = [[{'rc': 0, 'dps': 1}] * 4 for _ in range(n)]
+    return {'runs': runs}, scripts, cpu
+
+
+def exception_sessions(ck, scn, scripts, cpu, schedules, tag):
+    first = None
+    for schedule in schedules:
+        wd = c04._mkwd(ck)
+        sess = {'sched': 'batch', 'scripts': scripts, 'cpu': cpu, 'schedule': schedule}
+        inp = {'kind': 'parallel-exception', 'scn': scn, 'scripts': scripts, 'cpu': cpu, 'schedule': schedule,
+               'exception_runs': True}
+        obs = ds.run_session(wd, scn, sess)
+        ck.impl_traces += 1
+        ck.count('exception-session:' + obs['status'])
+        ck.case(nontrivial_key=(tag, json.dumps(scn, sort_keys=True), cpu, str(schedule)),
+                sample={'exception_runs': sum(1 for r in scn['runs'] if r.get('badcmd')), 'status': obs['status']})
+        if not session_ok(ck, inp, obs):
+            return
+        check_chunks(ck, inp, scn, obs, cpu)
+        cur = {'starts': sorted([r, inv] for (kind, r, inv) in obs['log'] if kind == 'start'),
+               'rows': sorted(obs['file']['rows']), 'status': obs['status']}
+        if first is None:
+            first = cur
+        elif cur != first:
+            key = [k for k in cur if cur[k] != first[k]][0]
+            ck.oracle_fail('schedule_independent', inp, {'differs': key, 'first_schedule': first[key], 'this_schedule': cur[key]},
+                           signature={'differs': key, 'a_process_returns_127': False, 'parallel': True,
+                                      'worker_exception': True})
+            return
+        bad = contiguous(obs['file']['rows'])
+        if bad:
+            ck.oracle_fail('datapoint_contiguous', inp, {'first': bad[:3]}, signature={'parallel': True})
 
 
 def has_127(scripts):
@@ -168,7 +255,14 @@ def time_adapter_scenario(rng, n_min, n_max, parallel):
 def session_ok(ck, inp, obs):
     if obs.get('ctl_error'):
         raise lib.InfraError('thread controller: %s' % obs['ctl_error'])
-    if obs['crash'] or obs['status'] not in ('ok', 'failed') or obs['unknown_starts'] or obs['order'] is None:
+    end = obs.get('at_end')
+    if end is not None and (end['workers_alive'] or end['blocked']):
+        ck.oracle_fail('workers_running_after_session_end', inp,
+                       {'status': obs['status'], 'workers_alive': end['workers_alive'], 'processes_running': end['blocked']},
+                       signature={'status': obs['status']})
+        return False
+    allowed = ('ok', 'failed', 'ui_error', 'thread_exc') if inp.get('exception_runs') else ('ok', 'failed')
+    if obs['crash'] or obs['status'] not in allowed or obs['unknown_starts'] or obs['order'] is None:
         ck.oracle_fail('session_ends_cleanly', inp, {'status': obs['status'], 'crash': obs['crash'], 'tail': obs['out_tail'][-300:]},
                        signature={'status': obs['status'], 'exception': (obs['crash'] or [None])[0]})
         return False
@@ -204,7 +298,7 @@ def sequential_scenario(ck, scn, scripts, seeds, tag):
     ref = None
     for sched, choices in plans:
         wd = c04._mkwd(ck)
-        sess = {'sched': sched, 'choices': choices, 'scripts': scripts, 'cpu': 1, 'builds': scn.get('fail_builds') or {}, 'time_probe': scn.get('time_probe')}
+        sess = {'sched': sched, 'choices': choices, 'scripts': scripts, 'cpu': 1, 'builds': scn.get('fail_builds') or {}, 'builds_once': True, 'time_probe': scn.get('time_probe')}
         inp = {'kind': 'sequential', 'scn': scn, 'scripts': scripts, 'sched': sched, 'choices': choices}
         obs = ds.run_session(wd, scn, sess)
         ck.impl_traces += 1
@@ -213,6 +307,8 @@ def sequential_scenario(ck, scn, scripts, seeds, tag):
         ck.count('sched:' + sched)
         op = c04.session_op('c11.session', scn, sess, obs['order'])
         c04.queue_of(ck).add(op, lambda ans, inp=inp, obs=obs: c04.compare_session(ck, 'c11.session', inp, obs, ans, THEOREMS))
+        if any(r.get('custom') for r in scn['runs']):
+            check_own_adapter(ck, inp, scn, obs, sched)
         if ref is None:
             ref = obs
             bad = contiguous(obs['file']['rows'])
@@ -231,14 +327,14 @@ def parallel_scenario(ck, scn, scripts, cpu, schedules, tag, ref=None, local='ba
     bf = build_failed_runs(scn)
     if ref is None:
         wd = c04._mkwd(ck)
-        ref = ds.run_session(wd, scn, {'sched': 'batch', 'scripts': scripts, 'cpu': 1, 'builds': scn.get('fail_builds') or {}, 'time_probe': scn.get('time_probe')})
+        ref = ds.run_session(wd, scn, {'sched': 'batch', 'scripts': scripts, 'cpu': 1, 'builds': scn.get('fail_builds') or {}, 'builds_once': True, 'time_probe': scn.get('time_probe')})
         ck.impl_traces += 1
         if not session_ok(ck, {'kind': 'parallel-ref', 'scn': scn, 'scripts': scripts}, ref):
             return
     for schedule in schedules:
         wd = c04._mkwd(ck)
         sess = {'sched': local, 'scripts': scripts, 'cpu': cpu, 'schedule': schedule, 'builds': scn.get('fail_builds') or {},
-                'time_probe': scn.get('time_probe'),
+                'time_probe': scn.get('time_probe'), 'builds_once': True,
                 'choices': [ck.rng.randrange(64) for _ in range(160)] if local == 'random' else []}
         inp = {'kind': 'parallel', 'scn': scn, 'scripts': scripts, 'cpu': cpu, 'schedule': schedule, 'local': local}
         obs = ds.run_session(wd, scn, sess)
@@ -252,6 +348,10 @@ def parallel_scenario(ck, scn, scripts, cpu, schedules, tag, ref=None, local='ba
         ck.case(nontrivial_key=(tag, json.dumps(scn, sort_keys=True), cpu, str(schedule)),
                 sample={'runs': len(scn['runs']), 'T': obs.get('T'), 'steps': obs['steps'][:10]})
         compare_with_batch(ck, inp, ref, obs, 'parallel', n127)
+        if any(r.get('custom') for r in scn['runs']):
+            check_own_adapter(ck, inp, scn, obs, 'parallel')
+        if obs.get('soft_releases'):
+            ck.count('sessions-with-worker-waiting-for-build-lock')
         check_chunks(ck, inp, scn, obs, cpu)
         if not n127:
             picks = [st[1] for st in obs['steps'] if st[0] in ('start', 'finish')]
@@ -376,20 +476,28 @@ def run_input(ck, inp, tag):
     elif kind in ('parallel', 'parallel-ref'):
         parallel_scenario(ck, inp['scn'], inp['scripts'], inp.get('cpu', 8), [inp.get('schedule') or []], tag,
                           local=inp.get('local', 'batch'))
+    elif kind == 'parallel-exception':
+        exception_sessions(ck, inp['scn'], inp['scripts'], inp.get('cpu', 8), [inp.get('schedule') or []], tag)
     elif kind == 'free':
         free_running(ck, inp['scn'], inp['scripts'], inp.get('cpu', 8), tag)
 
 
 def run(ck):
+    import time as _t
+    _t0 = [_t.time()]
+
+    def lap(name):
+        ck.notes.append('section %s: %.1fs' % (name, _t.time() - _t0[0]))
+        _t0[0] = _t.time()
     quick = ck.tier == 'quick'
     rng = ck.rng
     ck.rule = ('%d scenarios of 2-5 runs (succeeding, flaky and retried, failing, failing at the last invocation; shared '
                'executables) x {batch, round-robin, random x %d recorded choice streams}; parallel scheduler with 2-12 '
                'non-exclusive runs (some with exclusive ones), batch / round-robin / random as thread-local scheduler, cpu_count 2/3/5/8/16 (1, 1, 2, 3, 6 worker threads), %s sampled release '
                'schedules under the thread controller, %s; free-running parallel sessions with a yielding data-file '
-               'object; sequential and parallel scenarios measured with the Time adapter (availability probe of the time binaries scripted, and a scheduling point under the controller); a third of the sequential and half of the parallel scenarios have executor builds (shared) and suite builds (private), succeeding and failing; scenarios with a 127 outcome for the recorded finding. non-trivial = more than one run, distinct by '
+               'object; custom gauge adapters from different files with colliding class names (parsed-by-own-adapter oracle); differently named executors sharing one (command, location) build with non-repeatable builds, a running build being a scheduling point; parallel sessions in which worker threads end with an exception (nothing may run after the session returns; same outcome for every completion order); sequential and parallel scenarios measured with the Time adapter (availability probe of the time binaries scripted, and a scheduling point under the controller); a third of the sequential and half of the parallel scenarios have executor builds (shared) and suite builds (private), succeeding and failing; scenarios with a 127 outcome for the recorded finding. non-trivial = more than one run, distinct by '
                'scenario and schedule'
-               % ((36, 10, '~200', 'all interleavings of a 2-run scenario') if quick else
+               % ((36, 8, '~200', 'all interleavings of a 2-run scenario') if quick else
                   (110, 40, '~6000', 'all interleavings of 2-run scenarios and of a 3-run scenario (3^7 release schedules)')))
     for name, data in load_corpus(ck):
         ck.count('corpus')
@@ -402,12 +510,14 @@ def run(ck):
             ck.count('scenario-with-builds')
             if scn['fail_builds']:
                 ck.count('scenario-with-failing-build')
-        sequential_scenario(ck, scn, scripts, 10 if quick else 40, 'seq')
+        sequential_scenario(ck, scn, scripts, 8 if quick else 40, 'seq')
+    lap('sequential')
     # (1b) Time adapter, sequential schedulers
     for i in range(4 if quick else 30):
         scn, scripts = time_adapter_scenario(rng, 2, 4, False)
         ck.count('time-adapter-scenario')
         sequential_scenario(ck, scn, scripts, 3 if quick else 10, 'seq-time')
+    lap('time-sequential')
     # (2) parallel, exhaustive for small scenarios
     small = [(2, 5)] if quick else [(2, 5), (2, 8), (3, 8)]
     for n, cpu in small:
@@ -422,6 +532,7 @@ def run(ck):
         ck.notes.append('exhaustive interleavings: %d runs, cpu %d: %d schedules' % (n, cpu, len(scheds)))
         parallel_scenario(ck, {'runs': runs}, scripts, cpu, scheds, 'par-exh')
     ck.exhaustive = True
+    lap('parallel-exhaustive')
     # (3) parallel, sampled
     n_scen, per = (18, 10) if quick else (150, 25)
     for i in range(n_scen):
@@ -433,6 +544,7 @@ def run(ck):
         schedules = [[rng.randrange(12) for _ in range(200)] for _ in range(per)]
         # the thread-local scheduler of the workers: batch, round-robin or random
         parallel_scenario(ck, scn, scripts, cpu, schedules, 'par', local=['batch', 'round-robin', 'random'][i % 3])
+    lap('parallel-sampled')
     # (3b) parallel with the Time adapter: the availability probe is a scheduling point, so other workers
     #      build their command lines and run processes while the first worker is still probing
     for i in range(8 if quick else 80):
@@ -441,13 +553,45 @@ def run(ck):
         schedules = [[rng.randrange(12) for _ in range(120)] for _ in range(4 if quick else 12)]
         parallel_scenario(ck, scn, scripts, rng.choice([5, 8, 16]), schedules, 'par-time',
                           local=['batch', 'round-robin', 'random'][i % 3])
+    lap('parallel-time')
+    # (3c) custom gauge adapters whose names collide
+    for i in range(6 if quick else 40):
+        scn, scripts = adapter_scenario(rng, 2, 4, False)
+        ck.count('custom-adapter-scenario')
+        sequential_scenario(ck, scn, scripts, 4 if quick else 12, 'seq-adapters')
+    for i in range(3 if quick else 30):
+        scn, scripts = adapter_scenario(rng, 2, 5, True)
+        parallel_scenario(ck, scn, scripts, rng.choice([5, 8]), [[rng.randrange(12) for _ in range(80)] for _ in range(3)],
+                          'par-adapters', local=['batch', 'round-robin', 'random'][i % 3])
+    # (3c') differently named executors sharing ONE (command, location) build, one run per worker: every worker
+    #       reaches the build while the first one is still running it (a running build is a scheduling point; the
+    #       build cannot be repeated)
+    for i in range(4 if quick else 30):
+        n = rng.randint(2, 5)
+        runs = [{'N': rng.randint(1, 2), 'retries': 0, 'exe': j, 'excl': False, 'ebuild': 0 if j < max(2, n - 1) else j}
+                for j in range(n)]
+        scn = {'runs': runs, 'fail_builds': ({'e0': 1} if rng.random() < 0.25 else {}), 'shared_build_other_names': True}
+        scripts = [[{'rc': 0, 'dps': rng.choice([1, 2])}] * 3 for _ in runs]
+        ck.count('shared-build-one-run-per-worker')
+        parallel_scenario(ck, scn, scripts, 16, [[rng.randrange(12) for _ in range(60)] for _ in range(3)],
+                          'par-shared-build', local=['batch', 'round-robin', 'random'][i % 3])
+    lap('adapters')
+    # (3d) a worker thread ends with an exception: the other workers finish their work, whatever the completion
+    #      order, and nothing is running any more when the session returns
+    for i in range(5 if quick else 40):
+        scn, scripts, cpu = exception_scenario(rng)
+        exception_sessions(ck, scn, scripts, cpu, [[rng.randrange(12) for _ in range(80)] for _ in range(3 if quick else 6)],
+                           'par-exception')
+    lap('exceptions')
     # (4) free running with yielding writes
     for i in range(6 if quick else 60):
         n = rng.randint(4, 10)
         runs = [{'N': rng.randint(2, 3), 'retries': 1, 'exe': j, 'excl': False} for j in range(n)]
         scripts = [[{'rc': 0, 'dps': 3}] * r['N'] for r in runs]
         free_running(ck, {'runs': runs}, scripts, rng.choice([8, 16]), 'free')
+    lap('free-running')
     c04.queue_of(ck).flush()
+    lap('model')
 
 
 def replay(ck, data):
